@@ -72,8 +72,7 @@ def _row(rng, n, p_eos):
 
 
 def long_cases(ctx, padded=True):
-    """seeded <<ref row, hyp row>> pairs: medium (6..12 symbols, eos anywhere) and a few LONG PADDED ones (short
-    content, then eos, then > 256 symbols of eos / garbage: more than a byte can count)"""
+    """seeded <<ref row, hyp row>> pairs: medium (6..12 symbols, eos anywhere) and a few LONG PADDED ones"""
     rng = ctx.rng
     n_mid = 40 if ctx.quick else 300
     cases = []
@@ -86,13 +85,22 @@ def long_cases(ctx, padded=True):
             hyp = [rng.randint(1, 3) if rng.random() < 0.2 else s for s in hyp] or [1]
             hyp = hyp[:12]
         cases.append((ref, hyp))
-    for T in (() if not padded else (262,) if ctx.quick else (262, 300, 520)):
-        for kind in (("garbage",) if ctx.quick else ("eos", "garbage")):
-            body_r, body_h = _row(rng, rng.randint(3, 7), 0.0), _row(rng, rng.randint(3, 7), 0.0)
-            fill = (lambda: 0) if kind == "eos" else (lambda: rng.choice((0, 0, 0, 1, 2, 3)))
-            ref = body_r + [0] + [fill() for _ in range(T - len(body_r) - 1)]
-            hyp = body_h + [0] + [fill() for _ in range(T - len(body_h) - 1)]
-            cases.append((ref, hyp))
+    # LONG PADDED rows: one side short, the other short content + eos + filler holding MORE THAN 256 eos symbols (more
+    # than a byte can count); the long side alternates so that TLC's behaviours stay cheap (few steps x wide rows, or
+    # many steps x narrow rows)
+    for T in (() if not padded else (300,) if ctx.quick else (300, 520, 700)):
+        for kind in ("eos", "garbage"):
+            for long_side in ("ref", "hyp"):
+                body = _row(rng, rng.randint(3, 7), 0.0)
+                other = _row(rng, rng.randint(3, 8), 0.1)
+                n_fill = T - len(body) - 1
+                if kind == "eos":
+                    fill = [0] * n_fill
+                else:  # at least 260 eos among the filler, the rest arbitrary symbols, shuffled
+                    fill = [0] * 260 + [rng.randint(0, 3) for _ in range(n_fill - 260)]
+                    rng.shuffle(fill)
+                long_row = body + [0] + fill
+                cases.append((long_row, other) if long_side == "ref" else (other, long_row))
     return cases
 
 
